@@ -48,6 +48,7 @@ def check(src, rep):
                        "the identification pattern lies between the strict and the lenient form of the standard's syntax (DFA inclusion both ways); payload = bytes between the first LF and '!'. "
                        "NOT decided: the composition into 'valid iff ...' over all readouts.")
     init = C.methods["__init__"]
+    _history_independence(rep, M, C, file)
     E0 = Engine(M, split_ifexp=True)
     pi = [p for p in E0.run(init) if p.status == "run"]
     rep.require(len(pi) == 1, "DataReadout.__init__ has no unique non-raising path")
@@ -146,6 +147,65 @@ def check(src, rep):
     else:
         rep.violation("R6", f"{MOD}.DataReadout.payload", "payload-slice", "payload is not the bytes between the identification line and '!'", file, fn.node.lineno,
                       witness=show_sv(ps[0].ret)[:100] if ps and ps[0].ret else None)
+
+
+def _ref_crc16(b):
+    crc = 0
+    for x in b:
+        crc ^= x
+        for _ in range(8):
+            crc = (crc >> 1) ^ 0xA001 if crc & 1 else crc >> 1
+    return crc
+
+
+def _history_independence(rep, M, C, file):
+    """whether a readout is valid does not depend on the readouts seen before: the constructor and is_valid are interpreted (E-ABS) on a readout and on every
+    one-octet variant of it, once in a fresh interpreter state and once after the original has been processed (same module-level state)"""
+    from sa.abseval import AbsEval, AbsRaise
+    state = M.module_state(MOD)
+    if not state:
+        rep.ok("R3", "history independence", f"module {MOD} keeps nothing between calls: no function modifies a module-level container or rebinds a global, nothing is memoised, no mutable class "
+               "attribute is modified through instances - a readout's verdict cannot depend on earlier readouts")
+        return
+    body = b"/ABC5x\r\n1-0:1.8.0(000123.456*kWh)\r\n!"
+    base = body + b"%04X\r\n" % _ref_crc16(body)
+    fnv = C.methods["is_valid"]
+
+    def verdict(A, raw):
+        try:
+            obj = A.instantiate(CLS, [raw])
+        except AbsRaise as ex:
+            return ("raise", ex.cls)
+        except Exception as ex:  # noqa
+            return ("undecided", f"{type(ex).__name__}: {ex}")
+        r = A.apply(fnv, [obj])
+        return (r[0], r[1] if r[0] != "undecided" else str(r[1]))
+    n = 0
+    v0 = verdict(AbsEval(M), base)
+    if v0[0] in ("undecided", "branch"):
+        rep.undecide(f"R3 history independence: DataReadout / is_valid outside the interpreted subset on a concrete readout: {v0[1]}"[:300])
+        return
+    if v0 != ("value", True):
+        rep.violation("R3", f"{MOD}.DataReadout.is_valid", "rejects-correct", "a readout whose checksum is the CRC-16 of '/'..'!' is not reported valid", file, fnv.node.lineno, witness=f"{base!r}: {v0}")
+        return
+    for pos in range(len(base)):
+        for bit in (0x01, 0x04):
+            var = base[:pos] + bytes([base[pos] ^ bit]) + base[pos + 1:]
+            fresh = verdict(AbsEval(M), var)
+            A = AbsEval(M)
+            verdict(A, base)
+            after = verdict(A, var)
+            n += 1
+            if "undecided" in (fresh[0], after[0]) or "branch" in (fresh[0], after[0]):
+                rep.undecide(f"R3 history independence: outside the interpreted subset for octet {pos} changed: {fresh[1] if fresh[0] in ('undecided', 'branch') else after[1]}"[:300])
+                return
+            if fresh != after:
+                rep.violation("R3", f"{MOD}.DataReadout.is_valid", "history-dependent", "whether a readout is reported valid depends on the readouts processed before it (module-level state): "
+                              "a damaged readout is accepted, or a correct one refused, after another readout has been seen", file, fnv.node.lineno,
+                              witness=f"octet {pos} of {base!r} changed to 0x{base[pos] ^ bit:02x}: alone {fresh}, after the original readout {after}")
+                return
+    rep.ok("R3", "history independence", f"{n} one-octet variants of a readout get the same verdict in a fresh state and after the original readout was processed (constructor and is_valid interpreted, E-ABS)")
+    rep.count("history_variants", n)
 
 
 def _reader_clause(rep, src):
